@@ -59,8 +59,80 @@ def ll(lists):
     return "[" + "; ".join(vlib.flist(l) for l in lists) + "]"
 
 
+
+def integrator_roundtrips(ctx, libdir, rng):
+    import sys, warnings
+    if libdir not in sys.path: sys.path.insert(0, libdir)
+    import rebound
+    fails = []
+    def build(integ, coords, kernel, na, tt, tpm, nvar, seed):
+        r2 = __import__("random").Random(seed)
+        sim = rebound.Simulation()
+        sim.integrator = integ
+        if integ == "whfast":
+            sim.ri_whfast.coordinates = coords; sim.ri_whfast.kernel = kernel
+        sim.add(m=1.0, x=0.013, y=-0.02, z=0.004, vx=0.001, vy=0.002, vz=-0.0005)
+        a = 1.0
+        for i in range(4):
+            m = (10 ** r2.uniform(-5, -3)) if i < 2 else tpm
+            sim.add(m=m, a=a, e=r2.uniform(0, 0.2), inc=r2.uniform(0, 0.3), f=r2.uniform(0, 6), omega=r2.uniform(0, 6))
+            a *= r2.uniform(1.5, 1.9)
+        sim.N_active = na; sim.testparticle_type = tt
+        vs = []
+        for _ in range(nvar):
+            v = sim.add_variation()
+            for p in v.particles:
+                p.x, p.y, p.z, p.vx, p.vy, p.vz = [r2.uniform(-1, 1) for _ in range(6)]
+            vs.append(v)
+        return sim, vs
+    def state(sim):
+        return [(p.x, p.y, p.z, p.vx, p.vy, p.vz) for p in sim.particles]
+    def maxdiff(a, b):
+        return max(abs(x - y) for pa, pb in zip(a, b) for x, y in zip(pa, pb))
+    splits = [(-1, 0, 1e-4), (3, 0, 0.0), (3, 0, 1e-4), (1, 0, 1e-4), (3, 1, 0.0), (3, 1, 1e-4), (1, 1, 1e-4), (4, 1, 1e-4)]
+    confs = [("whfast", c, "default") for c in ("jacobi", "democraticheliocentric", "whds", "barycentric")]
+    confs += [("whfast", "jacobi", k) for k in ("modifiedkick", "composition", "lazy")] + [("saba", "", "")]
+    nrep = ctx.scale(1, 4)
+    with warnings.catch_warnings():
+        warnings.simplefilter("ignore")
+        for rep in range(nrep):
+            for integ, coords, kernel in confs:
+                for na, tt, tpm in splits:
+                    nvar = rng.choice([0, 1, 2]) if (integ == "whfast" and coords == "jacobi" and kernel == "default") else 0
+                    seed = rng.randrange(1 << 30)
+                    # (1) zero-length step
+                    try:
+                        sim, _ = build(integ, coords, kernel, na, tt, tpm, nvar, seed)
+                        s0 = state(sim); sim.dt = 0.0; sim.step(); sim.synchronize(); e1 = maxdiff(state(sim), s0)
+                    except Exception as ex:
+                        e1 = None; err = repr(ex)[:200]
+                    ctx.case(key=("dt0", integ, coords, kernel, na, tt, nvar))
+                    if e1 is None or not e1 < 1e-12:
+                        fails.append({"system": "integrator-roundtrip:%s/%s/%s" % (integ, coords, kernel), "N": 5, "N_active": na,
+                                      "testparticle_type": tt, "tp_mass": tpm, "N_var_config": nvar, "seed": seed,
+                                      "roundtrip_error": e1, "tolerance": 1e-12,
+                                      "what": "a zero-length step (inertial -> internal coordinates -> inertial) does not return the particles"})
+                    # (2) one semi-active particle of type 1 == all active (no test-test pair exists)
+                    if (na, tt) == (4, 1):
+                        try:
+                            res = []
+                            for na2, tt2 in ((-1, 0), (4, 1)):
+                                sim, _ = build(integ, coords, kernel, na2, tt2, tpm, nvar, seed)
+                                sim.dt = 0.01; sim.steps(20); sim.synchronize(); res.append(state(sim))
+                            e2 = maxdiff(res[0], res[1])
+                        except Exception as ex:
+                            e2 = None
+                        ctx.case(key=("semiactive", integ, coords, kernel, nvar))
+                        if e2 is None or not e2 < 1e-12:
+                            fails.append({"system": "integrator-split:%s/%s/%s" % (integ, coords, kernel), "N": 5, "N_active": 4,
+                                          "testparticle_type": 1, "tp_mass": tpm, "N_var_config": nvar, "seed": seed,
+                                          "roundtrip_error": e2, "tolerance": 1e-12,
+                                          "what": "N_active=N-1 with testparticle_type=1 differs from the all-active run"})
+    return fails
+
 def run(ctx):
     libdir = ctx.lib()
+    ctx.regen("translate_xfsites.py")      # Gen/C12Sites.v: the integrators' call sites of the transformations
     proved = ctx.prove("C12", extra_targets=["C12/Run.vo"])
     Particle, clib = particle_type(libdir)
     U = ctypes.c_uint
@@ -235,6 +307,10 @@ def run(ctx):
                 oracle_fail.append({"system": system, "N": n, "N_active": na, "masses": [x.hex() for x in ms],
                                     "values": {c: [x.hex() for x in vals[c]] for c in P3 + V3},
                                     "roundtrip_error": worst, "tolerance": tol, "slot0": com_bad, "mass_bad": m_bad})
+    # ---- the transformations as the integrators apply them: a zero-length WHFast/SABA step is nothing but
+    # inertial -> internal coordinates -> inertial (real and variational particles), and a run with semi-active
+    # (type 1) particles but no test-test pair is the all-active run
+    oracle_fail += integrator_roundtrips(ctx, libdir, rng)
     if oracle_fail:
         o = min(oracle_fail, key=lambda d: d["N"])
         ctx.violation("transform:%s" % o["system"], o, True,
